@@ -1,6 +1,6 @@
 (* C15 — property theorems only.  Proofs are in Base/CalendarProofs.v and C15/Proofs.v. *)
 From Coq Require Import ZArith Bool List.
-From DV Require Import Base.Calendar Base.CalendarProofs C15.Model C15.Proofs.
+From DV Require Import Base.Calendar Base.CalendarProofs C15.Model C15.Proofs C15.Chrono C15.ChronoProofs.
 Import ListNotations.
 Open Scope Z_scope.
 
@@ -158,6 +158,124 @@ Example C15_nonvacuous :
   dtd_days (-129600000000000) = 1 /\ dtd_hours (-129600000000000) = 12 /\ ymd_years (-14) = -1 /\ ymd_months (-14) = -2.
 Proof. exact model_nonvacuous. Qed.
 
+
+(* ====================================================================================================================
+   Second layer (C15/Chrono.v, C15/ChronoProofs.v; after the audit: "dt_compare_impl is the Spec under a guard, validity
+   and order are definitional").  The Spec is restated WITHOUT the arithmetic it is compared with, and the code is
+   modelled in its own formulation.
+   ==================================================================================================================== *)
+
+(* (a) day numbers <-> civil dates: inverse on ALL valid dates and ALL day numbers, strictly monotone, successor-preserving *)
+Theorem C15_civil_bijection :
+  (forall a, valid3 a = true -> civil_from_days (days3 a) = a) /\
+  (forall z, valid3 (civil_from_days z) = true /\ days3 (civil_from_days z) = z) /\
+  (forall a b, valid3 a = true -> valid3 b = true ->
+     (cmp3 a b = Lt <-> days3 a < days3 b) /\ (cmp3 a b = Gt <-> days3 a > days3 b) /\ (a = b <-> days3 a = days3 b)) /\
+  (forall z, civil_from_days (z + 1) = next_date (civil_from_days z)).
+Proof. exact civil_bijection. Qed.
+
+(* the day number is pinned by the successor of a date (next day of the month, else first of the next month, else 1 January)
+   and one anchor: days_from_civil satisfies the recurrence, and ANY function that does is days_from_civil on valid dates.
+   So the closed formula of Base/Calendar.v (before_year, before_month) carries no freedom. *)
+Theorem C15_day_number_recurrence :
+  days3 epoch = 0 /\ forall a, valid3 a = true -> valid3 (next_date a) = true /\ days3 (next_date a) = days3 a + 1.
+Proof. exact days_from_next. Qed.
+Theorem C15_day_number_unique : forall f : date -> Z,
+  f epoch = 0 -> (forall a, valid3 a = true -> f (next_date a) = f a + 1) ->
+  forall a, valid3 a = true -> f a = days3 a.
+Proof. exact day_number_unique. Qed.
+
+(* (b) weekday: 1970-01-01 is a Thursday, from each date to the next the weekday advances Monday .. Sunday, Monday ..;
+   any function with these two properties (and values 1..7) is the weekday; the code's weekday (FeelDate::weekday with its own
+   March-based era arithmetic on i64, Rust `/` truncating) is that function on every valid date of every year.
+   (weekday a = (days3 a + 3) mod 7 + 1 is the definition, Base/Calendar.v; C15_weekday_spec above has its recurrence on day numbers.) *)
+Theorem C15_weekday_recurrence : weekday3 epoch = 4 /\
+  forall a, valid3 a = true -> 1 <= weekday3 a <= 7 /\ weekday3 (next_date a) = weekday3 a mod 7 + 1.
+Proof. exact (conj (proj1 weekday_epoch) weekday_next_date). Qed.
+Theorem C15_weekday_unique : forall w : date -> Z,
+  w epoch = 4 -> (forall a, valid3 a = true -> 1 <= w a <= 7) ->
+  (forall a, valid3 a = true -> w (next_date a) = w a mod 7 + 1) ->
+  forall a, valid3 a = true -> w a = weekday3 a.
+Proof. exact weekday_unique. Qed.
+Theorem C15_weekday_code : forall a, valid3 a = true -> weekday_impl a = Some (weekday3 a).
+Proof. exact weekday_impl_is_calendar. Qed.
+
+(* (c) validity: the Spec as a relation (table of month lengths, leap rule as the property states it: Leap y :=
+   y mod 4 = 0 /\ (y mod 100 <> 0 \/ y mod 400 = 0)), and the code's formulation (Rust `%` truncates: Z.rem; match on the
+   month with None otherwise; chrono conversion of the date at 00:00:00Z first, fallback for the far years) equal to it *)
+Theorem C15_valid_date_spec : forall y m d,
+  (valid y m d = true <-> ValidDate y m d) /\
+  (is_leap_year_code y = true <-> Leap y) /\
+  (forall n, last_day_of_month_code y m = Some n <-> MonthLength y m n) /\
+  (is_valid_date_code y m d = true <-> (-999999999 <= y <= 999999999 /\ ValidDate y m d)) /\
+  is_valid_date_code y m d = is_valid_date y m d.
+Proof.
+  exact (fun y m d => conj (valid_ValidDate y m d) (conj (is_leap_year_code_Leap y) (conj (fun n => last_day_of_month_code_MonthLength y m n)
+         (conj (is_valid_date_code_spec y m d) (is_valid_date_code_eq y m d))))).
+Qed.
+
+(* (d) date-times.  Spec: dt_compare_spec a b = utc_ns a ?= utc_ns b, utc_ns = days * 86400 * 10^9 + local time of day - offset,
+   NO guard.  Code: dt_compare_code / dt_subtract_code = the chrono 0.4.45 path (NaiveDate as year + ordinal, from_ymd_opt,
+   overflowing_sub_offset, pred_opt / succ_opt with the range ends, lexicographic Ord, signed_duration_since through 400-year
+   cycles and the YEAR_DELTAS table, TimeDelta::num_nanoseconds with checked i64 arithmetic).
+   What the UTC conversion returns and exactly when it fails (chrono_dt of C15/Model.v is now a THEOREM about the code's path): *)
+Theorem C15_chrono_utc_spec : forall x,
+  match chrono_utc x with
+  | Some u => ndt_ok u /\ ndt_val u = utc_ns x /\ chrono_dt x = true
+  | None => chrono_dt x = false
+  end.
+Proof. exact chrono_utc_spec. Qed.
+Theorem C15_chrono_dt_representable : forall x, chrono_dt x = true <-> chrono_representable x.
+Proof. exact chrono_dt_representable. Qed.
+(* the code answers exactly on pairs of values representable by chrono (local date in years -262143..262142, time of day and
+   offset in range, UTC instant inside chrono's range) ... *)
+Theorem C15_dt_compare_defined_iff : forall a b,
+  dt_compare_code a b <> None <-> (chrono_representable a /\ chrono_representable b).
+Proof. exact dt_compare_defined_iff. Qed.
+(* ... and whenever it answers, with the order of the instants (no hypothesis) *)
+Theorem C15_dt_compare_exact : forall a b c, dt_compare_code a b = Some c -> c = dt_compare_spec a b.
+Proof. exact dt_compare_exact. Qed.
+(* subtraction: the i64 nanosecond limit (known finding dt-sub-range) is the additional definedness condition; the value is exact *)
+Theorem C15_dt_subtract_defined_iff : forall a b,
+  dt_subtract_code a b <> None <->
+  (chrono_representable a /\ chrono_representable b /\ - 2 ^ 63 <= utc_ns a - utc_ns b <= 2 ^ 63 - 1).
+Proof. exact dt_subtract_defined_iff. Qed.
+Theorem C15_dt_subtract_exact : forall a b n, dt_subtract_code a b = Some n -> n = utc_ns a - utc_ns b.
+Proof. exact dt_subtract_exact. Qed.
+(* the chrono path equals the model the correspondence check evaluates (C15/Model.v dt_compare_impl / dt_subtract_impl) *)
+Theorem C15_chrono_path_is_model : forall a b,
+  dt_compare_code a b = dt_compare_impl a b /\ dt_subtract_code a b = dt_subtract_impl a b.
+Proof. exact (fun a b => conj (dt_compare_code_eq a b) (dt_subtract_code_eq a b)). Qed.
+
+(* named zones: for EVERY zone-rule function (zone id, local date, local time of day -> offset, None for a skipped local time):
+   an answer of the code is the order / difference of the instants the rule assigns, and the code answers iff the rule gives
+   both offsets and the resolved values (and, for a named zone, the local date-time read at UTC: get_zone_offset) are representable *)
+Theorem C15_zoned_compare_exact : forall zone_rule a b c, z_compare_code zone_rule a b = Some c ->
+  exists ia ib, utc_ns_z zone_rule a = Some ia /\ utc_ns_z zone_rule b = Some ib /\ c = (ia ?= ib).
+Proof. exact z_compare_exact. Qed.
+Theorem C15_zoned_subtract_exact : forall zone_rule a b n, z_subtract_code zone_rule a b = Some n ->
+  exists ia ib, utc_ns_z zone_rule a = Some ia /\ utc_ns_z zone_rule b = Some ib /\ n = ia - ib.
+Proof. exact z_subtract_exact. Qed.
+Theorem C15_zoned_compare_defined_iff : forall zone_rule a b,
+  z_compare_code zone_rule a b <> None <-> exists oa ob, z_resolved zone_rule a oa /\ z_resolved zone_rule b ob.
+Proof. exact z_compare_defined_iff. Qed.
+
+Example C15_chrono_nonvacuous :
+  chrono_utc (mkdt 2021 1 1 0 30 0 5 3600) = Some ((2020, 366), 84600, 5) /\
+  chrono_utc (mkdt 2020 12 31 23 30 0 5 (-3600)) = Some ((2021, 1), 1800, 5) /\
+  dt_compare_code (mkdt 2021 1 1 0 30 0 5 3600) (mkdt 2020 12 31 23 30 0 5 (-3600)) = Some Lt /\
+  dt_subtract_code (mkdt 2021 1 1 0 30 0 5 3600) (mkdt 2020 12 31 23 30 0 6 (-3600)) = Some (-3600000000001) /\
+  chrono_utc (mkdt (-262143) 1 1 0 0 0 0 0) = Some ((-262143, 1), 0, 0) /\
+  chrono_utc (mkdt (-262143) 1 1 0 0 0 0 1) = None /\
+  chrono_utc (mkdt 262142 12 31 23 59 59 0 (-1)) = None /\
+  dt_subtract_code (mkdt 2262 4 11 23 47 16 854775807 0) (mkdt 1970 1 1 0 0 0 0 0) = Some 9223372036854775807 /\
+  dt_subtract_code (mkdt 2262 4 11 23 47 16 854775808 0) (mkdt 1970 1 1 0 0 0 0 0) = None /\
+  dt_subtract_code (mkdt 1970 1 1 0 0 0 0 0) (mkdt 2262 4 11 23 47 16 854775808 0) = Some (-9223372036854775808) /\
+  is_leap_year_code (-4) = true /\ is_leap_year_code (-100) = false /\ is_leap_year_code (-400) = true /\
+  is_valid_date_code 999999999 2 29 = false /\ is_valid_date_code (-999999996) 2 29 = true /\
+  next_date (2023, 2, 28) = (2023, 3, 1) /\ next_date (2024, 2, 28) = (2024, 2, 29) /\ next_date (1999, 12, 31) = (2000, 1, 1).
+Proof. exact chrono_nonvacuous. Qed.
+
 Print Assumptions C15_civil_roundtrip.
 Print Assumptions C15_days_roundtrip.
 Print Assumptions C15_days_monotone.
@@ -189,3 +307,21 @@ Print Assumptions C15_dt_subtract_range_refuted.
 Print Assumptions C15_dtd_components.
 Print Assumptions C15_ymd_components.
 Print Assumptions C15_nonvacuous.
+Print Assumptions C15_civil_bijection.
+Print Assumptions C15_day_number_recurrence.
+Print Assumptions C15_day_number_unique.
+Print Assumptions C15_weekday_recurrence.
+Print Assumptions C15_weekday_unique.
+Print Assumptions C15_weekday_code.
+Print Assumptions C15_valid_date_spec.
+Print Assumptions C15_chrono_utc_spec.
+Print Assumptions C15_chrono_dt_representable.
+Print Assumptions C15_dt_compare_defined_iff.
+Print Assumptions C15_dt_compare_exact.
+Print Assumptions C15_dt_subtract_defined_iff.
+Print Assumptions C15_dt_subtract_exact.
+Print Assumptions C15_chrono_path_is_model.
+Print Assumptions C15_zoned_compare_exact.
+Print Assumptions C15_zoned_subtract_exact.
+Print Assumptions C15_zoned_compare_defined_iff.
+Print Assumptions C15_chrono_nonvacuous.
